@@ -92,6 +92,9 @@ class Wire:
             head = str(a.values[0].value)[:2]
         elif isinstance(a, ast.BinOp) and isinstance(a.op, ast.Add):
             return self._payload_kind(a.left, mod)
+        elif isinstance(a, ast.Call) and isinstance(a.func, ast.Attribute) and a.func.attr == "format" and isinstance(a.func.value, ast.Constant) \
+                and isinstance(a.func.value.value, str) and len(a.func.value.value.split("{")[0]) >= 2:
+            head = a.func.value.value[:2]          # '011A03{:04x}{:02x}'.format(...): the literal prefix decides
         else:
             try:
                 v = self.ctx.prog.consteval(a, mod)
